@@ -72,6 +72,7 @@ func genC07(rng *rand.Rand, n int, emit func(Case), dist map[string]int) {
 		return v, L(I(2), S(string(b)))
 	}
 	insideShared := false
+	useCT := false
 	genErr = func(depth int) (error, Sx) {
 		k := rng.Intn(6)
 		if depth >= 3 {
@@ -82,6 +83,10 @@ func genC07(rng *rand.Rand, n int, emit func(Case), dist map[string]int) {
 			if rng.Intn(8) == 0 {
 				// the bare sentinel of a context the HANDLER cancelled: the client is still there and gets the generic 500
 				return context.Canceled, L(I(0), S(context.Canceled.Error()))
+			}
+			if rng.Intn(8) == 0 {
+				// ... or of a deadline the handler's own downstream call ran into
+				return context.DeadlineExceeded, L(I(0), S(context.DeadlineExceeded.Error()))
 			}
 			t := "plain " + marker()
 			markers = append(markers, t)
@@ -95,7 +100,11 @@ func genC07(rng *rand.Rand, n int, emit func(Case), dist map[string]int) {
 			if !insideShared && rng.Intn(2) == 0 {
 				// one of the package's shared error values, bare or with an internal error attached through WithInternal
 				// (which must hand out a copy: the shared value itself stays as it is for every later request)
-				g := []*echo.HTTPError{echo.ErrTeapot, echo.ErrForbidden, echo.ErrUnsupportedMediaType}[rng.Intn(3)]
+				pool := []*echo.HTTPError{echo.ErrTeapot, echo.ErrForbidden, echo.ErrUnsupportedMediaType, echo.ErrServiceUnavailable}
+				if useCT {
+					pool = pool[:3] // (behind ContextTimeout the shared 503 value is what that middleware itself builds on)
+				}
+				g := pool[rng.Intn(len(pool))]
 				msx := L(I(0), S(http.StatusText(g.Code)))
 				if rng.Intn(2) == 0 {
 					return g, L(I(2), I(g.Code), msx, L())
@@ -137,6 +146,7 @@ func genC07(rng *rand.Rand, n int, emit func(Case), dist map[string]int) {
 		default:
 			e.Use(middleware.RecoverWithConfig(middleware.RecoverConfig{DisablePrintStack: true}))
 		}
+		useCT = rng.Intn(5) == 0
 		errv, esx := genErr(0)
 		esx0 := esx
 		errText := errv.Error()
@@ -187,7 +197,31 @@ func genC07(rng *rand.Rand, n int, emit func(Case), dist map[string]int) {
 			commitBefore = 0
 			mode = 4
 		}
+		retErr := errv // what the handler (or the route-level middleware) returns
 		viaMiddleware := mode <= 2 && rng.Intn(3) == 0
+		realDeadline := useCT && mode <= 2 && commitBefore == 0 && rng.Intn(3) == 0
+		if realDeadline {
+			// the deadline REALLY passes (2 ms): the handler waits for its context and returns the context's error
+			errv, esx = context.DeadlineExceeded, L(I(0), S(context.DeadlineExceeded.Error()))
+			retErr, viaMiddleware = errv, false
+			e.Use(middleware.ContextTimeout(2 * time.Millisecond))
+			dist["context_timeout_really_expired"]++
+		}
+		if useCT {
+			// the ContextTimeout middleware (generous limit): an error that stems from an exceeded deadline is answered as
+			// 503 Service Unavailable carrying the original error as internal error - a COPY of the package's shared value
+			if !realDeadline {
+				e.Use(middleware.ContextTimeout(20 * time.Second))
+			}
+			dist["behind_context_timeout_middleware"]++
+			if mode <= 2 && errors.Is(errv, context.DeadlineExceeded) {
+				esx = L(I(2), I(503), L(I(0), S(http.StatusText(503))), L(esx))
+				esx0 = esx
+				errText = (&echo.HTTPError{Code: 503, Message: http.StatusText(503), Internal: errv}).Error()
+				errv = &echo.HTTPError{Code: 503, Message: http.StatusText(503), Internal: errv} // (for the reference below; the handler returns the original)
+				dist["deadline_errors_wrapped_by_context_timeout"]++
+			}
+		}
 		h := func(c echo.Context) error {
 			if commitBefore != 0 {
 				switch commitStyle {
@@ -209,7 +243,11 @@ func genC07(rng *rand.Rand, n int, emit func(Case), dist map[string]int) {
 			if viaMiddleware {
 				return nil
 			}
-			return errv
+			if realDeadline {
+				<-c.Request().Context().Done()
+				return c.Request().Context().Err()
+			}
+			return retErr
 		}
 		var mws []echo.MiddlewareFunc
 		if viaMiddleware {
@@ -218,11 +256,11 @@ func genC07(rng *rand.Rand, n int, emit func(Case), dist map[string]int) {
 					if err := next(c); err != nil {
 						return err
 					}
-					return errv
+					return retErr
 				}
 			})
 		}
-		if rng.Intn(5) == 0 && commitBefore == 0 {
+		if rng.Intn(5) == 0 && commitBefore == 0 && !realDeadline { // (http.TimeoutHandler answers an expired request context by itself)
 			// the Timeout middleware (generous limit, never fires) between Recover and the handler: it serves the handler
 			// through a buffering writer of net/http, which must not swallow the error response.
 			// (Only for errors raised before anything was written: what a handler wrote earlier sits in the buffer of
@@ -320,6 +358,10 @@ func genC07(rng *rand.Rand, n int, emit func(Case), dist map[string]int) {
 				}
 			}
 		}
+		// err.Error() as the error was BUILT (the live object may be a shared package-level value that an earlier request changed)
+		if t, okT := c07DescText(esx); okT && panicVal == nil && !invalidSet {
+			errText = t
+		}
 		in := L(B(e.Debug), B(method == "HEAD"), I(commitBefore), esx, S(errText))
 		status := w.Code
 		if w.hdrWrites == 0 {
@@ -365,4 +407,39 @@ func c07DescCode(d Sx) int {
 		}
 	}
 	return code
+}
+
+// c07DescText: err.Error() as the DESCRIPTION of the error says it reads (plain text; "t: inner" for %w; HTTPError's
+// "code=.., message=..[, internal=..]"), for descriptions whose messages are strings or errors; ok=false otherwise.
+func c07DescText(d Sx) (string, bool) {
+	l, isList := d.(sxList)
+	if !isList || len(l.l) < 2 {
+		return "", false
+	}
+	k, isInt := l.l[0].(sxInt)
+	if !isInt {
+		return "", false
+	}
+	switch k.v.Int64() {
+	case 0:
+		return l.l[1].(sxStr).s, true
+	case 1:
+		in, ok := c07DescText(l.l[2])
+		return l.l[1].(sxStr).s + ": " + in, ok
+	case 2:
+		m, isL := l.l[2].(sxList)
+		if !isL || len(m.l) < 2 {
+			return "", false
+		}
+		if mk := m.l[0].(sxInt).v.Int64(); mk != 0 && mk != 1 {
+			return "", false
+		}
+		t := fmt.Sprintf("code=%d, message=%s", l.l[1].(sxInt).v.Int64(), m.l[1].(sxStr).s)
+		if in, has := l.l[3].(sxList); has && len(in.l) == 1 {
+			it, ok := c07DescText(in.l[0])
+			return t + ", internal=" + it, ok
+		}
+		return t, true
+	}
+	return "", false
 }
